@@ -202,6 +202,7 @@ def verify_integrate_events(src, reg, prop, n=1, terminals=(False,), direction=1
                 evl = s2.new_obj("list", "list", items=[events[i] for i in idxs])
                 evo = s2.obj(s2.obj(s2.env["self"]).fields["_OdeSystem__events"]).fields
                 lo = s2.env.get("last_occurrence")
+                s2.ghost["cb_mark"] = len(s2.ghost.get("callback_log", []))
                 s2.ghost["event_step"] = dict(t_prev=t_prev, t_next=t_next, active=list(idxs), roots=roots, piece=pid, len_before=evo["len"], cols_before=dict(evo["cols"]),
                                               lo_before=list(lo.items) if isinstance(lo, ConcVec) else None, n_sol_calls=len(s2.ghost.get("sol_calls", [])))
                 out.append((s2, (ConcVec(list(idxs)), ConcVec(roots), end_int, evl)))
@@ -210,8 +211,20 @@ def verify_integrate_events(src, reg, prop, n=1, terminals=(False,), direction=1
 
     covered = {}
 
+    def callbacks_ran(ex_, st, ctx, how):
+        # C20: every callback is invoked exactly once, in list order, in every iteration that made a new state visible -- also in the
+        # iteration that lands on a terminal event (its sub-steps share this one invocation), however that iteration leaves the loop
+        if callbacks:
+            log = st.ghost.get("callback_log", [])[st.ghost.get("cb_mark", 0):]
+            reg.ground("%s/%s/every-callback-invoked-once-in-list-order-per-iteration[%s]" % (ex_.prop, ctx.tag, how), "post", "OdeSystem.integrate",
+                       log == list(range(callbacks)), backend="symbolic-exec", detail="callbacks invoked since the event block of this iteration: %r (expected %r)" % (log, list(range(callbacks))))
+
+    def iteration_break(ex_, st, ctx):
+        callbacks_ran(ex_, st, ctx, "loop-left-by-break")
+
     def iteration_end(ex_, st, ctx):
         """Ghost link between the roots handle_events returned and the records made in this iteration."""
+        callbacks_ran(ex_, st, ctx, "iteration-end")
         es = st.ghost.get("event_step")
         st.ghost["event_step"] = None
         if es is None:
@@ -287,12 +300,12 @@ def verify_integrate_events(src, reg, prop, n=1, terminals=(False,), direction=1
                "implies(not end_int, same(self.__int_status, old(self.__int_status)))",
                "implies(not end_int, forall(lambda i: implies(n_ev0 <= i and i < len(E_V), not %s)))".replace("E_V", EV) % is_term(EV + "[i].ev"),
                "implies(end_int, %s)" % TERMINAL]
-    c.loops = {0: {"invariant": inv + ev_inv + sol_inv + lo_inv + end_inv + list(extra_inv), "on_iteration_end": iteration_end}}
+    c.loops = {0: {"invariant": inv + ev_inv + sol_inv + lo_inv + end_inv + list(extra_inv), "on_iteration_end": iteration_end, "on_break": iteration_break}}
     # the pruning loop `for _ in range(__pre_length - 1): self.__sol.remove_interpolant(oldest)`, cut by its own invariant (any number of
     # pieces): the dense-output invariant survives every removal, one piece goes per iteration, the newest piece stays where it is
     do_here = [x.replace("self.", SOL + ".") for x in inv_do]
     newest_now = ("len(%s.t_eval) - 1" % SOL) if direction > 0 else "0"
-    c.loops[2] = {"cut": True,
+    c.loops["range(__pre_length - 1)"] = {"cut": True,
                   "let": {"prune_len0": "len(%s.t_eval)" % SOL, "prune_newest_key": "%s.t_eval[%s]" % (SOL, newest_now), "prune_newest_id": "%s.y_interpolants[%s].id" % (SOL, newest_now),
                           "prune_newest_t0": "%s.y_interpolants[%s].t0" % (SOL, newest_now)},
                   "invariant": do_here + [
